@@ -71,8 +71,9 @@ func item(r resource.Resource) Item {
 }
 
 type ctxRec struct {
-	n, id int
-	ctx   context.Context
+	n, id  int
+	ctx    context.Context
+	cancel context.CancelFunc // cancels the parent of this teardown-bound context
 }
 
 func runBehaviour(t *testing.T, tr *vh.Trace, tid string, beh []Cmd) {
@@ -194,13 +195,24 @@ func runBehaviour(t *testing.T, tr *vh.Trace, tid string, beh []Cmd) {
 				}
 
 				emit(Line{Ev: "issue", R: r, Op: c.Op, ID: c.ID, Blocked: blocked})
+			case "cancelctx":
+				for _, cr := range ctxs {
+					if cr.n == c.ID {
+						cr.cancel()
+						emit(Line{Ev: "cancelctx", N: cr.n})
+					}
+				}
 			case "ctx":
-				tctx, err := cache.ContextWithTeardown(root, vh.Key{NS: ns, Typ: vh.IntType, ID: rid(c.ID)}.Pointer())
+				parent, pcancel := context.WithCancel(root)
+
+				tctx, err := cache.ContextWithTeardown(parent, vh.Key{NS: ns, Typ: vh.IntType, ID: rid(c.ID)}.Pointer())
 				if err != nil {
+					pcancel()
+
 					continue
 				}
 
-				ctxs = append(ctxs, ctxRec{n: len(ctxs) + 1, id: c.ID, ctx: tctx})
+				ctxs = append(ctxs, ctxRec{n: len(ctxs) + 1, id: c.ID, ctx: tctx, cancel: pcancel})
 				emit(Line{Ev: "ctx", N: len(ctxs), ID: c.ID})
 			}
 
